@@ -309,6 +309,7 @@ def body(ck):
     ck.not_proved = ["float rounding of the affine rescale map (the real-number statement is proved; floats are compared exactly on dyadic data only)",
                      "GymToLeraxEnv / GymnaxToLeraxEnv (foreign environments run through io_callback): explored by twin runs"]
     ck.build_coq(); ck.compile_props()
+    ck.kernel_link()   # wrapper methods regenerated from the source = Env.wrap1 layers (coq/link/C13_link.v)
     quick = ck.tier == "quick"
     constructible(ck)
     n = 120 if quick else 1000
